@@ -163,32 +163,30 @@ macro_rules! probe {
                 }
                 b.update([u8::from(wiped_after_drop(sk)), u8::from(wiped_after_drop(pk))]);
             }
-            // crafted key: honest key of case 0 with every t0 field at one of the two range ends
-            let xi = h("xi", $seed, $set, 0, 0);
-            let (_, sk0) = fips204::$m::KG::keygen_from_seed(&xi);
-            let mut skc = sk0.into_bytes();
-            let t0_off = 128 + 32 * bits * ($K + $L);
-            let pat = h("t0pat", $seed, $set, 0, 0);
-            for f in 0..($K * 256) {
-                let bit = (pat[(f / 8) % 32] >> (f % 8)) & 1;
-                set_field(&mut skc, t0_off, 13, f, if bit == 1 { 0x1FFF } else { 0 });
-            }
-            let skc = fips204::$m::PrivateKey::try_from_bytes(skc).expect("crafted key accepted");
-            let nc = if $cases < 48 { $cases } else { 48 };
-            for j in 0..nc {
-                let msg = h("cm", $seed, $set, j, 0);
-                let mut rng = Replay(h("crnd", $seed, $set, j, 0), 0);
-                b.update(skc.try_sign_with_rng(&mut rng, &msg[..8], &[]).expect("crafted sign"));
-            }
             let outb: [u8; 32] = b.finalize().into();
             println!("set={} behave={}", $set, hex(&outb));
         }
         // ---- rare-event digest: corpus seeds / signature tuples (offline SHAKE searches), same stream as `vcheck featref` ----
         if !kat_only() {
             let mut r = Sha256::new();
+            let mut crafted: Option<fips204::$m::PrivateKey> = None;
             for line in rare_lines() {
                 let f: Vec<&str> = line.split(' ').collect();
                 if f.len() < 3 || f[1].parse::<u32>().ok() != Some($set) {
+                    continue;
+                }
+                if f[0] == "XK" {
+                    // a crafted (accepted, inconsistent) private key: XK <set> <sk>
+                    crafted = Some(fips204::$m::PrivateKey::try_from_bytes(unhex(f[2]).try_into().expect("sk length")).expect("crafted key accepted"));
+                    continue;
+                }
+                if f[0] == "X" {
+                    // sign with the crafted key: X <set> <msg> <rnd>; the signature bytes (or a marker for Err) are digested
+                    let mut rng = Replay(unhex(f[3]).try_into().expect("rnd"), 0);
+                    match crafted.as_ref().expect("XK line first").try_sign_with_rng(&mut rng, &unhex(f[2]), &[]) {
+                        Ok(sig) => r.update(sig),
+                        Err(_) => r.update([0xEEu8]),
+                    }
                     continue;
                 }
                 if f[0] == "V" {
